@@ -3,13 +3,14 @@ EXTENDS OptStep, TLC, Json
 CONSTANTS KSet, TfSet, Emit
 
 Patterns(K) == {[i \in 1..K |-> "f"], [i \in 1..K |-> IF i = 1 THEN "f" ELSE "fg"], [i \in 1..K |-> "fg"],
-                [i \in 1..K |-> IF i % 2 = 1 THEN "f" ELSE "g"]}
+                [i \in 1..K |-> IF i % 2 = 1 THEN "f" ELSE "g"], [i \in 1..K |-> "fb"]}
 MCInit ==
   /\ \E kind \in {"opt", "eval"} : \E K \in KSet : \E reqs \in Patterns(K) : \E failAt \in 0..K :
      \E fclass \in {"thr", "filter", "est", "pert", "allnan", "exc"} : \E maxfun \in 0..(K + 1) : \E allownan \in BOOLEAN :
      \E flt \in {"none", "sort-objective", "sort-constraint", "cvar-objective", "cvar-constraint"} :
      \E est \in {"mean", "std"} : \E tf \in TfSet :
        /\ (kind = "eval" => K = 1 /\ reqs = <<"f">> /\ maxfun = 0 /\ ~allownan /\ fclass # "pert")
+       /\ (reqs[1] = "fb" => kind = "opt" /\ fclass \in {"thr", "exc"} /\ flt = "none")
        /\ (failAt = 0 => fclass = "thr" /\ flt = "none" /\ est = "mean" /\ ~allownan)
        /\ (allownan => fclass = "allnan")
        /\ (fclass = "filter" => flt # "none") /\ (flt # "none" => fclass \in {"filter", "thr"})
